@@ -3,12 +3,17 @@
 (*                                                                                          *)
 (* State (record s):                                                                        *)
 (*   buf    file -> text id, or NoText when the client has no open buffer for the file       *)
+(*   has    a cached parse tree / codegen exists (the configured build entry was resolvable  *)
+(*          when the last analysis ran);  main: the entry file of that analysis              *)
 (*   an     file -> text id: the file map the cached parse tree / codegen was computed from  *)
 (*   taint  the cached symbol table was mutated by a `rename' request since the last analysis*)
 (*   stale  files closed since the last analysis whose buffer differed from the disk text    *)
 (*   shown  file -> id of the diagnostics last published for it ("none": nothing/empty list) *)
 (*   alive  the process is running;  death: name of the defect that ended it ("" = none)     *)
-(* disk (file -> text id) never changes during a session.                                    *)
+(* disk (file -> text id, NoText = the file does not exist) never changes during a session. *)
+(* The project configuration (mos.toml) is one of the files: its effective text (buffer over *)
+(* disk) names the build entry; an analysis exists only while that entry exists as a buffer  *)
+(* or on disk (mod.rs perform_codegen: reset first, return early if the entry is missing).    *)
 (*                                                                                          *)
 (* Every action exists in two readings selected by the constant set `devs':                  *)
 (* the ideal one (the property as stated: C14) and the one the code performs today.          *)
@@ -25,24 +30,32 @@ AllDeviations == {"CloseDoesNotReanalyse", "RenameTaintsCache", "StaleDiagnostic
 Eff(disk, buf) == [f \in DOMAIN disk |-> IF buf[f] # NoText THEN buf[f] ELSE disk[f]]
 SomeOpen(buf) == \E f \in DOMAIN buf : buf[f] # NoText
 
-S0(disk) == [buf |-> [f \in DOMAIN disk |-> NoText], an |-> disk, taint |-> FALSE, stale |-> {},
-             shown |-> [f \in DOMAIN disk |-> "none"], alive |-> TRUE, death |-> ""]
+(* is the build entry named by the effective configuration resolvable?  entryOf: config text id -> entry file name *)
+EntryFile(disk, buf, cfg, entryOf(_)) == entryOf(Eff(disk, buf)[cfg])
+Resolvable(disk, buf, cfg, entryOf(_)) ==
+  LET e == EntryFile(disk, buf, cfg, entryOf) IN e \in DOMAIN disk /\ Eff(disk, buf)[e] # NoText
+
+(* start-up: the server analyses the project as it is on disk *)
+S0(disk, ok, main) == [buf |-> [f \in DOMAIN disk |-> NoText], has |-> ok, main |-> main, an |-> disk, taint |-> FALSE, stale |-> {},
+                       shown |-> [f \in DOMAIN disk |-> "none"], alive |-> TRUE, death |-> ""]
 
 (* didOpen / didChange: insert the text, throw the cached analysis away, analyse the effective file map, publish.  *)
+(* ok/main: is the entry resolvable in the new buffers, and which file is it (when not ok every cached result is     *)
+(* dropped and nothing is analysed or published: tree = {}).                                                         *)
 (* tree = files of the new parse tree, diag(f) = id of the diagnostics computed for f.                               *)
 (* Code today: publishes for the files of the new tree only; a file that dropped out keeps what was shown for it.   *)
-Insert(s, disk, f, t, tree, diag(_), devs) ==
+Insert(s, disk, f, t, ok, main, tree, diag(_), devs) ==
   LET b  == [s.buf EXCEPT ![f] = t]
       sh == [g \in DOMAIN disk |-> IF g \in tree THEN diag(g)
                                    ELSE IF "StaleDiagnosticsForDroppedFile" \in devs THEN s.shown[g] ELSE "none"] IN
-  [s EXCEPT !.buf = b, !.an = Eff(disk, b), !.taint = FALSE, !.stale = {}, !.shown = sh]
+  [s EXCEPT !.buf = b, !.has = ok, !.main = main, !.an = Eff(disk, b), !.taint = FALSE, !.stale = {}, !.shown = sh]
 
 (* didClose.  Ideal: the file is read from disk again, so analyse and publish.  Code today: forget the buffer only. *)
-Close(s, disk, f, tree, diag(_), devs) ==
+Close(s, disk, f, ok, main, tree, diag(_), devs) ==
   LET b == [s.buf EXCEPT ![f] = NoText] IN
   IF "CloseDoesNotReanalyse" \in devs
     THEN [s EXCEPT !.buf = b, !.stale = IF s.buf[f] # disk[f] THEN @ \cup {f} ELSE @]
-    ELSE [s EXCEPT !.buf = b, !.an = Eff(disk, b), !.taint = FALSE, !.stale = {},
+    ELSE [s EXCEPT !.buf = b, !.has = ok, !.main = main, !.an = Eff(disk, b), !.taint = FALSE, !.stale = {},
                    !.shown = [g \in DOMAIN disk |-> IF g \in tree THEN diag(g) ELSE "none"]]
 
 (* a rename request that returned an edit: the code renames the edges of the cached symbol table as a side effect *)
@@ -84,7 +97,9 @@ TokensOK(lt, toks) ==
 (* History independence: the cached analysis is the analysis of the effective file map (restricted to what the      *)
 (* analysis can see: the files of its tree), untouched by earlier requests; what is shown per file is what a fresh  *)
 (* server shows.  Totality: no request ends the process.                                                             *)
-FreshAnalysis(s, disk, seen(_)) == seen(s.an) = seen(Eff(disk, s.buf)) /\ ~s.taint
+FreshAnalysis(s, disk, ok, main, seen(_)) ==
+  /\ s.has = ok
+  /\ s.has => (s.main = main /\ seen(s.an) = seen(Eff(disk, s.buf)) /\ ~s.taint)
 FreshShown(s, disk, tree, diag(_)) == SomeOpen(s.buf) => s.shown = [g \in DOMAIN disk |-> IF g \in tree THEN diag(g) ELSE "none"]
 Total(s) == s.alive
 
